@@ -60,6 +60,14 @@ def buffer(rng, name):
 def build(rng, k):
     if k % 29 == 0:
         return []
+    if k % 97 == 5:
+        # a dump beyond 64 KiB: the four-digit address column of the BMC format wraps around
+        big = [rng.randrange(256) for _ in range(8 * rng.randrange(2, 6))]
+        big = [b if big[max(0, j - 3):j + 1] != START else 0x43 for j, b in enumerate(big)]
+        for nm in rng.sample(NAMES, 4):
+            big += buffer(rng, nm) + [0] * (16 * rng.randrange(1300, 1500))
+        big += buffer(rng, rng.choice(NAMES)) + [rng.randrange(256) for _ in range(rng.randrange(0, 9))]
+        return big
     parts = []
     ilog = []
     for _ in range(rng.randrange(0, 5)):
